@@ -74,3 +74,44 @@ fn u14_2_mhdr_offsets_point_at_their_chunks() {
     core::mem::forget(p);
 }
 
+
+// ------------------------------------------------------------------------------------ U14.3 MCNK header reset
+include!("../verif_blocks_serializer.rs");
+
+/// header-only stand-in for McnkChunk in the header-reset block of write_mcnk_chunk (the block reads .header only)
+pub struct HdrOnly {
+    pub header: McnkHeader,
+}
+
+fn any_mcnk_header() -> McnkHeader {
+    McnkHeader {
+        flags: McnkFlags { value: kani::any() }, index_x: kani::any(), index_y: kani::any(), n_layers: kani::any(), n_doodad_refs: kani::any(),
+        multipurpose_field: kani::any(), ofs_layer: kani::any(), ofs_refs: kani::any(), ofs_alpha: kani::any(), size_alpha: kani::any(),
+        ofs_shadow: kani::any(), size_shadow: kani::any(), area_id: kani::any(), n_map_obj_refs: kani::any(), holes_low_res: kani::any(),
+        unknown_but_used: kani::any(), pred_tex: kani::any(), no_effect_doodad: kani::any(), unknown_8bytes: kani::any(),
+        ofs_snd_emitters: kani::any(), n_snd_emitters: kani::any(), ofs_liquid: kani::any(), size_liquid: kani::any(),
+        position: [0.0, 0.0, 0.0], ofs_mccv: kani::any(), ofs_mclv: kani::any(), unused: kani::any(), _padding: kani::any(),
+    }
+}
+
+// Every sub-chunk offset / size / count of the header that is about to be back-patched starts at zero, whatever the
+// caller's header carried (so an absent sub-chunk can never be pointed at by a stale offset); the identifying fields
+// are taken over unchanged.  Loop-free over every header value.
+// @harness unit=U14.3 props=C14 kind=complete timeout=300 target="builder/serializer.rs: write_mcnk_chunk header reset block (E11)" oracle=adt_offsets
+#[kani::proof]
+#[kani::unwind(10)]
+#[kani::stub(alloc::fmt::format, stub_format)]
+fn u14_3_mcnk_header_reset() {
+    let src = HdrOnly { header: any_mcnk_header() };
+    let h = blk_mcnk_header_reset(&src);
+    assert!(h.ofs_layer == 0 && h.n_layers == 0 && h.ofs_refs == 0, "layer / refs start cleared");
+    assert!(h.ofs_alpha == 0 && h.size_alpha == 0 && h.ofs_shadow == 0 && h.size_shadow == 0, "alpha / shadow start cleared");
+    assert!(h.ofs_liquid == 0 && h.size_liquid == 0, "liquid starts cleared");
+    assert!(h.ofs_mccv == 0 && h.ofs_mclv == 0, "vertex colour / lighting offsets start cleared");
+    assert!(h.ofs_snd_emitters == 0 && h.n_snd_emitters == 0, "sound emitters start cleared");
+    let i: usize = kani::any();
+    kani::assume(i < 8);
+    assert!(h.multipurpose_field[i] == 0, "height / normal offsets start cleared");
+    assert!(h.flags.value == src.header.flags.value && h.index_x == src.header.index_x && h.index_y == src.header.index_y, "identity fields are kept");
+    assert!(h.area_id == src.header.area_id && h.holes_low_res == src.header.holes_low_res && h.n_doodad_refs == src.header.n_doodad_refs && h.n_map_obj_refs == src.header.n_map_obj_refs, "content fields are kept");
+}
